@@ -31,7 +31,7 @@ func runChildren(bin string, dir string, tag string, scs []Scenario, watchdogSec
 		return oc, err
 	}
 	os.Remove(resFile)
-	start, bad := 0, 0
+	start, bad := 0, 0 // bad: a crash costs 1, a hang (one full watchdog period) costs 2; budget 4
 	var allErr bytes.Buffer
 	for start < len(scs) && bad < 4 {
 		cmd := exec.Command(bin)
@@ -76,7 +76,7 @@ func runChildren(bin string, dir string, tag string, scs []Scenario, watchdogSec
 		}
 		if ended >= 0 && (oc.results[ended].Hang || oc.results[ended].Leaked > 0) && ended+1 < len(scs) {
 			start = ended + 1
-			bad++
+			bad += 2
 			continue
 		}
 		if runErr != nil && begun < 0 {
